@@ -592,10 +592,22 @@ static ASTNode *load_module_internal_impl(const char *module_path, Environment *
     fseek(file, 0, SEEK_END);
     long size = ftell(file);
     fseek(file, 0, SEEK_SET);
+
+    /* fopen() also succeeds on a directory; ftell() then reports LONG_MAX or -1 */
+    if (size < 0 || size > (1L << 30)) {
+        fprintf(stderr, "Error: Module file '%s' is not a readable regular file\n", module_path);
+        fclose(file);
+        return NULL;
+    }
     
     char *source = malloc(size + 1);
-    fread(source, 1, size, file);
-    source[size] = '\0';
+    if (!source) {
+        fprintf(stderr, "Error: Out of memory reading module '%s'\n", module_path);
+        fclose(file);
+        return NULL;
+    }
+    size_t got = fread(source, 1, size, file);
+    source[got] = '\0';
     fclose(file);
     
     /* Tokenize */
